@@ -1805,4 +1805,420 @@ theorem tfs_O (env : Env) (A B : St) (hA : WF env A) (hB : WF env B) (huA : Uniq
       subst e
       exact ((hadded x).mp hy).2 ((hleft x).mp hx).1
 
+-- ------------------------------------------------------------ certificates --
+
+/-- a fingerprint present on both sides of an address carries the same certificate (the hypothesis
+    that excludes the finding `diff-cert-same-fingerprint-other-content`) -/
+def CertContentAgree (A B : St) : Prop :=
+  ∀ a mA mB fp c c', look A (.certs a) = some (.certs mA) → look B (.certs a) = some (.certs mB) →
+    (fp, c) ∈ mA → (fp, c') ∈ mB → c = c'
+
+def certEntry : Target × Val → List (Nat × Nat)
+  | (.certs a, .certs m) => m.map fun p => (a, p.1)
+  | _ => []
+
+theorem certKeysOf_eq (s : St) : certKeysOf s = s.flatMap certEntry := rfl
+
+theorem wf_certs (env : Env) (s : St) (hs : WF env s) (a : Nat) (m : List (Nat × Cert))
+    (h : look s (.certs a) = some (.certs m)) :
+    canon a = a ∧ m.Pairwise (fun x y => x.1 < y.1) ∧
+      ∀ p ∈ m, env.fp p.2.pem = some p.1 ∧ resolveNames env p.2 = some p.2 := by
+  have := hs.2 _ (mem_of_look s _ _ h)
+  simpa only [EntryOK] using this
+
+theorem certs_shape (env : Env) (s : St) (hs : WF env s) (a : Nat) :
+    look s (.certs a) = none ∨ ∃ m, look s (.certs a) = some (.certs m) := by
+  cases h : look s (.certs a) with
+  | none => exact Or.inl rfl
+  | some v =>
+    have := hs.2 _ (mem_of_look s _ _ h)
+    cases v <;> simp only [EntryOK] at this <;> first | exact False.elim this | exact Or.inr ⟨_, rfl⟩
+
+theorem mem_certKeysOf (env : Env) (s : St) (hs : WF env s) (a fp : Nat) :
+    (a, fp) ∈ certKeysOf s ↔ ∃ c, (fp, c) ∈ certsOf (look s (.certs a)) := by
+  rw [certKeysOf_eq]
+  simp only [List.mem_flatMap]
+  constructor
+  · rintro ⟨e, he, h⟩
+    obtain ⟨t, v⟩ := e
+    cases t <;> cases v <;> simp [certEntry] at h
+    obtain ⟨hex, rfl⟩ := h
+    rw [look_of_mem s hs.1 _ _ he]
+    exact hex
+  · rintro ⟨c, hc⟩
+    rcases certs_shape env s hs a with hn | ⟨m, hm⟩
+    · rw [hn] at hc; simp [certsOf] at hc
+    · rw [hm] at hc; simp only [certsOf] at hc
+      exact ⟨_, mem_of_look s _ _ hm, by simp [certEntry]; exact ⟨c, hc⟩⟩
+
+theorem certKeysOf_canon (env : Env) (s : St) (hs : WF env s) (p : Nat × Nat) (h : p ∈ certKeysOf s) : canon p.1 = p.1 := by
+  obtain ⟨a, fp⟩ := p
+  obtain ⟨c, hc⟩ := (mem_certKeysOf env s hs a fp).mp h
+  rcases certs_shape env s hs a with hn | ⟨m, hm⟩
+  · rw [hn] at hc; simp [certsOf] at hc
+  · exact (wf_certs env s hs a m hm).1
+
+theorem nodup_certKeysOf (env : Env) (s : St) (hs : WF env s) : (certKeysOf s).Nodup := by
+  rw [certKeysOf_eq]
+  unfold List.Nodup
+  rw [List.pairwise_flatMap]
+  constructor
+  · intro e he
+    obtain ⟨t, v⟩ := e
+    cases t <;> cases v <;> simp only [certEntry] <;> try exact List.Pairwise.nil
+    have hok := hs.2 _ he
+    simp only [EntryOK] at hok
+    rw [List.pairwise_map]
+    refine List.Pairwise.imp ?_ hok.2.1
+    intro x y hxy e
+    injection e with _ e2
+    omega
+  · have hk : s.Pairwise (fun a b => a.1 ≠ b.1) := by
+      have := hs.1
+      unfold List.Nodup at this
+      rw [List.pairwise_map] at this
+      exact this
+    refine List.Pairwise.imp ?_ hk
+    intro e e' hne x hx y hy exy
+    obtain ⟨t, v⟩ := e; obtain ⟨t', v'⟩ := e'
+    subst exy
+    cases t <;> cases v <;> simp [certEntry] at hx
+    cases t' <;> cases v' <;> simp [certEntry] at hy
+    obtain ⟨c1, _, e1⟩ := hx
+    obtain ⟨c2, _, e2⟩ := hy
+    apply hne
+    rw [← e1] at e2
+    injection e2 with e2 _
+    simp [e2]
+
+theorem certs_removed_fold (env : Env) (a : Nat) (ha : canon a = a) (L : List (Nat × Nat)) :
+    (∀ p ∈ L, canon p.1 = p.1) →
+    ∀ v, (v = none ∨ ∃ m, v = some (.certs m)) →
+    ∃ v', foldTO env (.certs a) (v, true) (L.map (fun p => Cmd.removeCert p.1 (some p.2))) = (v', true) ∧
+      certsOf v' = (certsOf v).filter (fun q => !L.contains (a, q.1)) ∧
+      (v' = none ∨ ∃ m, v' = some (.certs m)) := by
+  induction L with
+  | nil =>
+    intro _ v hv
+    refine ⟨v, rfl, ?_, hv⟩
+    exact (List.filter_eq_self.mpr (by simp)).symm
+  | cons p L ih =>
+    intro hcan v hv
+    obtain ⟨pa, fp⟩ := p
+    have hpc : canon pa = pa := hcan (pa, fp) (by simp)
+    simp only [List.map_cons, foldTO_cons]
+    have ht : tgt (Cmd.removeCert pa (some fp)) = some (.certs pa) := by simp [tgt, hpc]
+    by_cases hc : pa = a
+    · subst hc
+      simp only [ht, if_true]
+      rcases hv with rfl | ⟨m, rfl⟩
+      · obtain ⟨v', h1, h2, h3⟩ := ih (fun q hq => hcan q (by simp [hq])) none (Or.inl rfl)
+        refine ⟨v', by simpa [loc] using h1, ?_, h3⟩
+        rw [h2]; simp [certsOf]
+      · obtain ⟨v', h1, h2, h3⟩ := ih (fun q hq => hcan q (by simp [hq])) (some (.certs (certErase m fp))) (Or.inr ⟨_, rfl⟩)
+        refine ⟨v', by simpa [loc] using h1, ?_, h3⟩
+        rw [h2]
+        simp only [certsOf, certErase, List.filter_filter]
+        apply List.filter_congr
+        intro x _
+        simp only [List.contains_eq_mem, List.mem_cons, Prod.mk.injEq, true_and, ne_eq]
+        by_cases e : x.1 = fp <;> simp [e]
+    · have hne : ¬ (some (Target.certs pa) = some (Target.certs a)) := by
+        intro h; injection h with h; injection h with h; exact hc h
+      simp only [ht, hne, if_false]
+      obtain ⟨v', h1, h2, h3⟩ := ih (fun q hq => hcan q (by simp [hq])) v hv
+      refine ⟨v', h1, ?_, h3⟩
+      rw [h2]
+      apply List.filter_congr
+      intro x _
+      have : ¬ (a = pa) := fun e => hc e.symm
+      simp [this]
+
+theorem certInsertSorted_mem_self (fp : Nat) (c : Cert) (m : List (Nat × Cert)) : (fp, c) ∈ certInsertSorted fp c m := by
+  induction m with
+  | nil => simp [certInsertSorted]
+  | cons x t ih =>
+    obtain ⟨k, v⟩ := x
+    simp only [certInsertSorted]
+    split
+    · simp
+    · split
+      · simp
+      · simp [ih]
+
+theorem certInsertSorted_mem_old (fp : Nat) (c : Cert) (m : List (Nat × Cert)) (q : Nat × Cert)
+    (hq : q ∈ m) (hne : q.1 ≠ fp) : q ∈ certInsertSorted fp c m := by
+  induction m with
+  | nil => simp at hq
+  | cons x t ih =>
+    obtain ⟨k, v⟩ := x
+    simp only [certInsertSorted]
+    split
+    · simp [hq]
+    · split
+      · next _ heq =>
+        rcases List.mem_cons.mp hq with e | h
+        · rw [e] at hne; exact absurd heq.symm hne
+        · simp [h]
+      · rcases List.mem_cons.mp hq with e | h
+        · simp [e]
+        · simp [ih h]
+
+theorem certGet_none_iff (m : List (Nat × Cert)) (fp : Nat) : certGet m fp = none ↔ ∀ c, (fp, c) ∉ m := by
+  unfold certGet
+  constructor
+  · intro h c hc
+    cases hf : m.find? (fun p => decide (p.1 = fp)) with
+    | none => exact (List.find?_eq_none.mp hf) (fp, c) hc (by simp)
+    | some p => rw [hf] at h; cases h
+  · intro h
+    have : m.find? (fun p => decide (p.1 = fp)) = none := by
+      apply List.find?_eq_none.mpr
+      intro p hp e
+      simp at e
+      exact h p.2 (by rw [← e]; exact hp)
+    rw [this]
+
+theorem certGet_some_mem (m : List (Nat × Cert)) (fp : Nat) (c : Cert) (h : certGet m fp = some c) : (fp, c) ∈ m := by
+  unfold certGet at h
+  cases hf : m.find? (fun p => decide (p.1 = fp)) with
+  | none => rw [hf] at h; cases h
+  | some p =>
+    rw [hf] at h; injection h with h
+    have hm := List.mem_of_find?_eq_some hf
+    have hk : p.1 = fp := by simpa using List.find?_some hf
+    obtain ⟨k, v⟩ := p
+    simp only at hk h; subst hk; subst h; exact hm
+
+theorem certGet_of_mem_sorted (m : List (Nat × Cert)) (hs : m.Pairwise (fun x y => x.1 < y.1)) (fp : Nat) (c : Cert)
+    (h : (fp, c) ∈ m) : certGet m fp = some c := by
+  cases hg : certGet m fp with
+  | none => exact absurd h ((certGet_none_iff m fp).mp hg c)
+  | some c' =>
+    have h' := certGet_some_mem m fp c' hg
+    by_cases e : c' = c
+    · rw [e]
+    · exfalso
+      have hne : ((fp, c') : Nat × Cert) ≠ (fp, c) := by intro h; injection h with _ h; exact e h
+      have := pairwise_sym_mem (fun a b : Nat × Cert => a.1 ≠ b.1) (fun a b h e => h e.symm) m
+        (List.Pairwise.imp (fun {a b} (h : a.1 < b.1) => by omega) hs) _ _ h' h hne
+      exact this rfl
+
+def certAddBlock (b : St) (p : Nat × Nat) : List Cmd :=
+  match certGet (certsOf (look b (.certs p.1))) p.2 with
+  | some c => [Cmd.addCert p.1 c]
+  | none => []
+
+theorem diffCerts_eq (a b : St) :
+    diffCerts a b =
+      ((certKeysOf a).filter (fun p => !(certKeysOf b).contains p)).map (fun p => Cmd.removeCert p.1 (some p.2)) ++
+      ((certKeysOf b).filter (fun p => !(certKeysOf a).contains p)).flatMap (certAddBlock b) := rfl
+
+theorem certs_added_fold (env : Env) (B : St) (a : Nat) (ha : canon a = a) (L : List (Nat × Nat)) :
+    L.Nodup → (∀ p ∈ L, canon p.1 = p.1) →
+    (∀ p ∈ L, p.1 = a → ∃ c, certGet (certsOf (look B (.certs a))) p.2 = some c ∧ env.fp c.pem = some p.2 ∧
+      resolveNames env c = some c) →
+    ∀ v, (v = none ∨ ∃ m, v = some (.certs m)) → (certsOf v).Pairwise (fun x y => x.1 < y.1) →
+      (∀ p ∈ L, p.1 = a → ∀ c, (p.2, c) ∉ certsOf v) →
+      ∃ v', foldTO env (.certs a) (v, true) (L.flatMap (certAddBlock B)) = (v', true) ∧
+        (v' = none ∨ ∃ m, v' = some (.certs m)) ∧ (certsOf v').Pairwise (fun x y => x.1 < y.1) ∧
+        ∀ q, q ∈ certsOf v' ↔ q ∈ certsOf v ∨ ((a, q.1) ∈ L ∧ certGet (certsOf (look B (.certs a))) q.1 = some q.2) := by
+  induction L with
+  | nil => intro _ _ _ v hv hs _; exact ⟨v, rfl, hv, hs, fun q => by simp⟩
+  | cons p L ih =>
+    intro hnd hcan hblk v hv hs hnot
+    obtain ⟨pa, fp⟩ := p
+    have hnd' := List.nodup_cons.mp hnd
+    have hpc : canon pa = pa := hcan (pa, fp) (by simp)
+    simp only [List.flatMap_cons, foldTO_append]
+    by_cases hc : pa = a
+    · subst hc
+      obtain ⟨c, hget, hfp, hres⟩ := hblk (pa, fp) (by simp) rfl
+      have hnone : certGet (certsOf v) fp = none := (certGet_none_iff _ _).mpr (hnot (pa, fp) (by simp) rfl)
+      have hstep : foldTO env (.certs pa) (v, true) (certAddBlock B (pa, fp)) =
+          (some (.certs (certSet (certsOf v) fp c)), true) := by
+        simp only [certAddBlock, hget, foldTO_cons, foldTO_nil, tgt, hpc, if_true, loc, hfp, hres, hnone,
+          Option.isSome_none, Bool.false_eq_true, if_false, Bool.and_self]
+      rw [hstep]
+      have hmem : ∀ q, q ∈ certSet (certsOf v) fp c ↔ q = (fp, c) ∨ q ∈ certsOf v := by
+        intro q
+        constructor
+        · exact mem_certInsertSorted fp c _ q
+        · rintro (e | h)
+          · rw [e]; exact certInsertSorted_mem_self fp c _
+          · refine certInsertSorted_mem_old fp c _ q h ?_
+            intro e
+            exact hnot (pa, fp) (by simp) rfl q.2 (by rw [← e]; exact h)
+      obtain ⟨v', h1, h2, h3, h4⟩ := ih hnd'.2 (fun q hq => hcan q (by simp [hq]))
+        (fun q hq => hblk q (by simp [hq])) (some (.certs (certSet (certsOf v) fp c))) (Or.inr ⟨_, rfl⟩)
+        (sorted_certInsertSorted fp c _ hs)
+        (by
+          intro q hq hqa c' hin
+          have hin' : (q.2, c') ∈ certSet (certsOf v) fp c := hin
+          rcases (hmem _).mp hin' with e | h
+          · injection e with e1 _
+            apply hnd'.1
+            obtain ⟨qa, qf⟩ := q
+            simp only at hqa e1; subst hqa; subst e1; exact hq
+          · exact hnot q (by simp [hq]) hqa c' h)
+      refine ⟨v', h1, h2, h3, ?_⟩
+      intro q
+      have hc1 : certsOf (some (.certs (certSet (certsOf v) fp c))) = certSet (certsOf v) fp c := rfl
+      rw [h4 q, hc1, hmem q]
+      constructor
+      · rintro ((e | h) | ⟨h, hg⟩)
+        · exact Or.inr ⟨by rw [e]; exact List.mem_cons_self, by rw [e]; exact hget⟩
+        · exact Or.inl h
+        · exact Or.inr ⟨List.mem_cons_of_mem _ h, hg⟩
+      · rintro (h | ⟨hin, hg⟩)
+        · exact Or.inl (Or.inr h)
+        · rcases List.mem_cons.mp hin with e | h
+          · injection e with _ e2
+            refine Or.inl (Or.inl ?_)
+            obtain ⟨q1, q2⟩ := q
+            simp only at e2 hg; subst e2
+            rw [hget] at hg; injection hg with hg; rw [hg]
+          · exact Or.inr ⟨h, hg⟩
+    · have hskip : ∀ cmd ∈ certAddBlock B (pa, fp), tgt cmd ≠ some (.certs a) := by
+        intro cmd hcmd
+        simp only [certAddBlock] at hcmd
+        split at hcmd
+        · simp at hcmd; subst hcmd
+          simp only [tgt, hpc]
+          intro h; injection h with h; injection h with h; exact hc h
+        · simp at hcmd
+      rw [foldTO_skip env _ _ _ hskip]
+      obtain ⟨v', h1, h2, h3, h4⟩ := ih hnd'.2 (fun q hq => hcan q (by simp [hq]))
+        (fun q hq => hblk q (by simp [hq])) v hv hs (fun q hq => hnot q (by simp [hq]))
+      refine ⟨v', h1, h2, h3, ?_⟩
+      intro q
+      rw [h4 q]
+      have : ¬ (a = pa) := fun e => hc e.symm
+      simp [this]
+
+theorem certs_ext (m m' : List (Nat × Cert)) (hs : m.Pairwise (fun x y => x.1 < y.1))
+    (hs' : m'.Pairwise (fun x y => x.1 < y.1)) (hm : ∀ q, q ∈ m ↔ q ∈ m') : m = m' := by
+  have nd : ∀ l : List (Nat × Cert), l.Pairwise (fun x y => x.1 < y.1) → l.Nodup := by
+    intro l h
+    refine List.Pairwise.imp ?_ h
+    intro x y hxy e; subst e; omega
+  have hp : m.Perm m' := (List.perm_ext_iff_of_nodup (nd m hs) (nd m' hs')).mpr hm
+  exact List.Perm.eq_of_pairwise (le := fun x y : Nat × Cert => x.1 < y.1)
+    (fun a b _ _ h1 h2 => by omega) hs hs' hp
+
+theorem norm_certs_eq (v v' : Option Val) (h1 : v = none ∨ ∃ m, v = some (.certs m))
+    (h2 : v' = none ∨ ∃ m, v' = some (.certs m)) (h : certsOf v = certsOf v') : norm v = norm v' := by
+  rcases h1 with rfl | ⟨m, rfl⟩ <;> rcases h2 with rfl | ⟨m', rfl⟩ <;> simp only [certsOf] at h
+  · rfl
+  · subst h; rfl
+  · subst h; rfl
+  · subst h; rfl
+
+/-- certificates of one address: under `CertContentAgree`, the commands of `diff` are accepted and
+    leave `B`'s bucket (up to an empty bucket) -/
+theorem certs_O (env : Env) (A B : St) (hA : WF env A) (hB : WF env B) (hag : CertContentAgree A B) (a : Nat) :
+    ∃ v', foldTO env (.certs a) (look A (.certs a), true) (diffCerts A B) = (v', true) ∧
+      norm v' = norm (look B (.certs a)) := by
+  have kA := mem_certKeysOf env A hA
+  have kB := mem_certKeysOf env B hB
+  rw [diffCerts_eq, foldTO_append]
+  by_cases ha : canon a = a
+  · obtain ⟨v1, h1, hm1, hs1⟩ := certs_removed_fold env a ha
+      ((certKeysOf A).filter (fun p => !(certKeysOf B).contains p))
+      (fun p hp => certKeysOf_canon env A hA p (List.mem_filter.mp hp).1)
+      (look A (.certs a)) (certs_shape env A hA a)
+    rw [h1]
+    have sortedA : (certsOf (look A (.certs a))).Pairwise (fun x y => x.1 < y.1) := by
+      rcases certs_shape env A hA a with hn | ⟨m, hm⟩
+      · rw [hn]; simp [certsOf]
+      · rw [hm]; exact (wf_certs env A hA a m hm).2.1
+    have sortedB : (certsOf (look B (.certs a))).Pairwise (fun x y => x.1 < y.1) := by
+      rcases certs_shape env B hB a with hn | ⟨m, hm⟩
+      · rw [hn]; simp [certsOf]
+      · rw [hm]; exact (wf_certs env B hB a m hm).2.1
+    have okB : ∀ q ∈ certsOf (look B (.certs a)), env.fp q.2.pem = some q.1 ∧ resolveNames env q.2 = some q.2 := by
+      intro q hq
+      rcases certs_shape env B hB a with hn | ⟨m, hm⟩
+      · rw [hn] at hq; simp [certsOf] at hq
+      · rw [hm] at hq; exact (wf_certs env B hB a m hm).2.2 q hq
+    have agree : ∀ fp c c', (fp, c) ∈ certsOf (look A (.certs a)) → (fp, c') ∈ certsOf (look B (.certs a)) → c = c' := by
+      intro fp c c' h1 h2
+      rcases certs_shape env A hA a with hn | ⟨m, hm⟩
+      · rw [hn] at h1; simp [certsOf] at h1
+      · rcases certs_shape env B hB a with hn' | ⟨m', hm'⟩
+        · rw [hn'] at h2; simp [certsOf] at h2
+        · rw [hm] at h1; rw [hm'] at h2
+          exact hag a m m' fp c c' hm hm' h1 h2
+    have hleft : ∀ q, q ∈ certsOf v1 ↔ q ∈ certsOf (look A (.certs a)) ∧ ∃ c, (q.1, c) ∈ certsOf (look B (.certs a)) := by
+      intro q
+      rw [hm1, List.mem_filter, not_contains_iff', List.mem_filter, not_contains_iff', kA, kB]
+      constructor
+      · rintro ⟨hq, hc⟩
+        refine ⟨hq, ?_⟩
+        apply Classical.byContradiction
+        intro hne; exact hc ⟨⟨q.2, hq⟩, hne⟩
+      · rintro ⟨hq, hc⟩
+        exact ⟨hq, fun h => h.2 hc⟩
+    obtain ⟨v2, h2, hs2, hsorted2, hm2⟩ := certs_added_fold env B a ha
+      ((certKeysOf B).filter (fun p => !(certKeysOf A).contains p))
+      (List.Nodup.sublist List.filter_sublist (nodup_certKeysOf env B hB))
+      (fun p hp => certKeysOf_canon env B hB p (List.mem_filter.mp hp).1)
+      (by
+        intro p hp hpa
+        obtain ⟨pa, fp⟩ := p
+        simp only at hpa; subst hpa
+        obtain ⟨c, hc⟩ := (kB pa fp).mp (List.mem_filter.mp hp).1
+        exact ⟨c, certGet_of_mem_sorted _ sortedB fp c hc, (okB _ hc).1, (okB _ hc).2⟩)
+      v1 hs1
+      (by rw [hm1]; exact List.Pairwise.sublist List.filter_sublist sortedA)
+      (by
+        intro p hp hpa c hin
+        obtain ⟨pa, fp⟩ := p
+        simp only at hpa; subst hpa
+        have := (not_contains_iff' _ _).mp (List.mem_filter.mp hp).2
+        exact this ((kA pa fp).mpr ⟨c, ((hleft _).mp hin).1⟩))
+    refine ⟨v2, h2, norm_certs_eq _ _ hs2 (certs_shape env B hB a) ?_⟩
+    apply certs_ext _ _ hsorted2 sortedB
+    intro q
+    rw [hm2 q, hleft q, List.mem_filter, not_contains_iff', kA, kB]
+    constructor
+    · rintro (⟨hq, c, hc⟩ | ⟨_, hg⟩)
+      · have := agree q.1 q.2 c hq hc
+        rw [← this] at hc; exact hc
+      · exact certGet_some_mem _ _ _ hg
+    · intro hq
+      by_cases hex : ∃ c', (q.1, c') ∈ certsOf (look A (.certs a))
+      · obtain ⟨c', hc'⟩ := hex
+        have := agree q.1 c' q.2 hc' hq
+        rw [this] at hc'
+        exact Or.inl ⟨hc', q.2, hq⟩
+      · exact Or.inr ⟨⟨⟨q.2, hq⟩, hex⟩, certGet_of_mem_sorted _ sortedB q.1 q.2 hq⟩
+  · -- not a socket address key: nothing addresses it, nothing is stored under it
+    have hAn : look A (.certs a) = none := by
+      rcases certs_shape env A hA a with hn | ⟨m, hm⟩
+      · exact hn
+      · exact absurd (wf_certs env A hA a m hm).1 ha
+    have hBn : look B (.certs a) = none := by
+      rcases certs_shape env B hB a with hn | ⟨m, hm⟩
+      · exact hn
+      · exact absurd (wf_certs env B hB a m hm).1 ha
+    refine ⟨none, ?_, by rw [hBn]⟩
+    rw [hAn, foldTO_skip, foldTO_skip]
+    · intro c hc
+      simp only [List.mem_map] at hc
+      obtain ⟨p, hp, rfl⟩ := hc
+      have hpc := certKeysOf_canon env A hA p (List.mem_filter.mp hp).1
+      simp only [tgt, hpc]
+      intro h; injection h with h; injection h with h; subst h; exact ha hpc
+    · intro c hc
+      simp only [List.mem_flatMap] at hc
+      obtain ⟨p, hp, hc⟩ := hc
+      have hpc := certKeysOf_canon env B hB p (List.mem_filter.mp hp).1
+      simp only [certAddBlock] at hc
+      split at hc
+      · simp at hc; subst hc
+        simp only [tgt, hpc]
+        intro h; injection h with h; injection h with h; subst h; exact ha hpc
+      · simp at hc
+
 end Sozu.State
